@@ -144,21 +144,30 @@ def check_lookup_names(chk, prog):
             for ai in LOOKUPS[cn]:
                 if ai >= len(c["ch"]) - 1:
                     continue
-                def arms_of(e, depth=0):
+                def arms_of(e, depth=0, fn_=f):
                     e = X.strip(e)
-                    if e is None or depth > 3:
+                    if e is None or depth > 4:
                         return []
                     if e.get("k") == "cond":        # SPIF_STR_STR(obj): obj is NULL ? "" : obj->s
-                        return arms_of(e["ch"][1], depth + 1) + arms_of(e["ch"][2], depth + 1)
+                        return arms_of(e["ch"][1], depth + 1, fn_) + arms_of(e["ch"][2], depth + 1, fn_)
                     if e.get("k") == "ref" and e.get("rk") == "local":
                         out_ = []
-                        for y in walk(f.body):      # a local the text was put in first: follow its definitions
+                        for y in walk(fn_.body):      # a local the text was put in first: follow its definitions
                             if y.get("k") == "assign" and y.get("op") == "=" and X.strip(y["ch"][0]).get("d") == e["d"]:
-                                out_ += arms_of(y["ch"][1], depth + 1)
+                                out_ += arms_of(y["ch"][1], depth + 1, fn_)
                             elif y.get("k") == "decl":
                                 for dcl in y.get("decls", ()):
                                     if dcl["d"] == e["d"] and dcl.get("init") is not None:
-                                        out_ += arms_of(dcl["init"], depth + 1)
+                                        out_ += arms_of(dcl["init"], depth + 1, fn_)
+                        return out_
+                    if e.get("k") == "ref" and e.get("rk") == "param" and e.get("pi") is not None:
+                        out_ = []                     # the lookup sits in a helper: what its callers hand in
+                        for g_ in u.functions.values():
+                            if g_.body is None:
+                                continue
+                            for c_ in X.calls_in(g_.body):
+                                if X.callee_name(c_) == fn_.name and e["pi"] < len(c_["ch"]) - 1:
+                                    out_ += arms_of(c_["ch"][1 + e["pi"]], depth + 1, g_)
                         return out_
                     return [e]
                 for a_ in arms_of(c["ch"][1 + ai]):
